@@ -24,7 +24,7 @@ type c04World struct {
 	Rep     string    `json:"rep"`            // representation id, or generated "timestpp-en" style
 	N       int64     `json:"n"`              // live segment index counted from AST
 	Kind    string    `json:"kind,omitempty"` // "" sweep | "notfound"
-	Bad     string    `json:"bad,omitempty"`  // for notfound: below-startnr | unknown-rep | unknown-asset
+	Bad     string    `json:"bad,omitempty"`  // for notfound: below-startnr | unknown-rep | unknown-asset | rep-prefixed | rep-suffixed | rep-dot-wild (near misses of a valid URL)
 }
 
 type c04Op struct {
@@ -168,7 +168,7 @@ func (C04) Gen(rng *core.Rng, tier string, idx int) *core.Scenario {
 	w := c04World{VodRoot: label, Gen: gen, Asset: ar.Asset, Cfg: cfg, Rep: repID, N: n}
 	if rng.Chance(0.08) {
 		w.Kind = "notfound"
-		w.Bad = core.Pick(rng, []string{"below-startnr", "unknown-rep", "unknown-asset"})
+		w.Bad = core.Pick(rng, []string{"below-startnr", "unknown-rep", "unknown-asset", "rep-prefixed", "rep-suffixed", "rep-dot-wild"})
 	}
 	sc := core.NewScenario("C04", "tlsim", 0, tier, w)
 	tg, ok := modelTarget(a, cfg, repID, n)
@@ -253,6 +253,22 @@ func (C04) Run(t *testing.T, sc *core.Scenario, res *core.Result) {
 			url = prefix + "/nosuchrep/" + fmt.Sprint(cfg.StartNr()+w.N) + ".m4s"
 		case "unknown-asset":
 			url = cfg.Prefix("no/such/asset") + "/" + tg.URL
+		case "rep-prefixed", "rep-suffixed", "rep-dot-wild":
+			// near misses of the valid segment URL: no representation has such a media path
+			dot := strings.LastIndex(tg.URL, ".")
+			if strings.HasPrefix(w.Rep, "time") || dot < 0 {
+				res.Count("probe.notfound-skipped")
+				res.Nontrivial = false
+				return
+			}
+			switch w.Bad {
+			case "rep-prefixed":
+				url = prefix + "/zz" + tg.URL
+			case "rep-suffixed":
+				url = prefix + "/" + tg.URL + "zz"
+			default:
+				url = prefix + "/" + tg.URL[:dot] + "z" + tg.URL[dot+1:]
+			}
 		}
 		for _, op := range ops {
 			if op.T < astMS {
